@@ -57,12 +57,16 @@ class A(Adapter):
                      "toy_norot": ToyFlatPackGeneratorNoRotation}[gen]()
                 return FlatPack(generator=g, reward_fn=CellDenseReward() if cell else BlockDenseReward())
             R, C = 2 * rb + 1, 2 * cb + 1
-            by_actions = SOLVABLE_BY_ACTIONS and rb * cb <= (6 if tier == "quick" else 9)
+            # (the exhaustive search through the action space is exponential in the number of blocks: 9 blocks took more than 50 minutes in the
+            # thorough tier, so both tiers stop at 6 blocks; the larger configurations keep every other certificate)
+            by_actions = SOLVABLE_BY_ACTIONS and rb * cb <= 6
             out.append(Config(f"flatpack-{gen}-{rb}x{cb}-{'cell' if cell else 'block'}", build,
                               {"num_rows": R, "num_cols": C, "num_blocks": rb * cb, "cell_dense": cell, "f32": True,
                                "by_actions": by_actions},
                               gen=gen, row_blocks=rb, col_blocks=cb, cell_dense=cell, partner=None,
                               constant_generator=(gen != "random" or rb * cb == 1),
+                              # the search through the action space takes seconds per instance from 6 blocks on: the number of instances is capped
+                              **({"max_instances": 48} if by_actions and rb * cb >= 6 else {"max_instances": 24} if rb * cb >= 9 else {}),
                               **({"only": {"C10"}} if (gen, rb, cb, cell) in c10_only and tier == "quick" else {})))
         return out
 
